@@ -134,6 +134,9 @@ class Env:
             self.obj[i].cfg.add(self.to_edge(e))
         for m, c in sorted(consts.get("Entry0", ())):
             self.obj[m].entry_point = self.obj[c]
+        if any(f[0] == "writemsg" for f in consts.get("Families", ())):
+            for i in self._by("ir"):      # a first save, so that every later one is a repeated save of the same objects
+                self.save_bytes(i)
 
     # ---- identities -----------------------------------------------------
     def uuid(self, n):
@@ -312,7 +315,7 @@ class Env:
     def step(self, op):
         """Returns the observed result (spec vocabulary) or {'exc': class name}."""
         self.history.append({k: v for k, v in op.items()
-                             if k not in ("res", "alts", "branches") and (k != "msg" or op["name"] == "readmsg")})
+                             if k not in ("res", "alts", "branches") and (k != "msg" or op["name"] in ("readmsg", "writemsg"))})
         try:
             r = self._do(op)
         except (Unprojectable, NoBinding):
@@ -386,6 +389,8 @@ class Env:
             return {"size": bi.size, "bytes": list(bi.contents), "isize": bi.initialized_size}
         if name == "readmsg":
             return self._do_readmsg(op)
+        if name == "writemsg":
+            return self._do_writemsg(op)
         if name == "lookup":
             if self.lookup_hook is None:
                 raise NoBinding("harness has no binding for op 'lookup' here")
@@ -572,6 +577,8 @@ class Env:
         A = {self.to_edge(e) for e in op["a"]}
         if m == "update":
             L = [self.to_edge(e) for e in op["a"]]
+            if self._flip():
+                return self._ret(C.update(self.g.CFG(L)))   # another CFG is an iterable of edges like any other
             return self._ret(C.update(L + L[:1]))   # an iterable that repeats an edge
         C2 = C
         if m == "ior":
@@ -702,6 +709,26 @@ class Env:
                 for k, e in o.symbolic_expressions.items():
                     out[(self.nid(o), k)] = self.nid(e)
         return out
+
+    def _do_writemsg(self, op):
+        """the writer alone: the live IR is saved (objects stay as they are) and the bytes are compared with the
+        specification's message of the current state"""
+        from . import protomsg
+        from gtirb.proto import IR_pb2
+        from gtirb.version import PROTOBUF_VERSION
+        irid = op["ir"]
+        self._n_writes = getattr(self, "_n_writes", 0) + 1
+        data = self.save_bytes(irid, self._n_writes % 3 == 0)
+        if data[:8] != b"GTIRB\0\0" + bytes([PROTOBUF_VERSION]):
+            return {"exc": "WrongHeader", "msg": data[:8].hex()}
+        pm = IR_pb2.IR()
+        pm.ParseFromString(data[8:])
+        mapper = protomsg.Mapper(self, SCHEMA)
+        got = protomsg.canon_msg(mapper.canon_from_proto(pm, self._expr_ids(self.obj[irid])))
+        want = protomsg.canon_msg(op["msg"])
+        if got != want:
+            return {"exc": "WriterDisagreesWithSchemaMapping", "msg": _first_diff(want, got)}
+        return NONE
 
     def _do_readmsg(self, op):
         """the reader alone: the specification's message written by an independent writer (generated classes
